@@ -109,4 +109,42 @@ def onoffPull (n : Nat) (vals started : List Nat) : Option Nat :=
 def lightPull (n : Nat) (vals started : List Nat) : Option Rat :=
   lightReduceChanges ((memberChanges n vals started).map (·.map levelOf))
 
+/-! ## the subscription loop of `PullX`
+
+`for { select { case msg := <-memberValues: … } }`: a message of member `i` with no changes is
+skipped; otherwise its last change replaces slot `i` of `memberChanges`, the slots are reduced, and
+the result is forwarded unless it equals the last one (`proto.Equal(lastChange, newChange)`;
+`lastChange` starts as the empty change, whose value is `none`). -/
+
+structure PullSt (V : Type) where
+  last : Option V                -- the value of `lastChange` (`none`: the empty change)
+  slots : List (Option V)        -- `memberChanges`
+  sent : List (Option V)         -- the values forwarded by `server.Send`, oldest first
+
+def pullInit (n : Nat) : PullSt V := ⟨none, List.replicate n none, []⟩
+
+/-- `memberChanges[msg.i] = endChange` for a message with changes `vs` (none: `continue`) -/
+def slotStep (slots : List (Option V)) (ev : Nat × List V) : List (Option V) :=
+  match ev.2.getLast? with
+  | none => slots
+  | some v => slots.set ev.1 (some v)
+
+/-- one message of member `ev.1` carrying the changes `ev.2` -/
+def pullFeed [DecidableEq V] (reduce : List (Option V) → Option V) (st : PullSt V) (ev : Nat × List V) : PullSt V :=
+  match ev.2.getLast? with
+  | none => st
+  | some v =>
+    let slots := st.slots.set ev.1 (some v)
+    let new := reduce slots
+    if st.last = new then { st with slots := slots }
+    else { last := new, slots := slots, sent := st.sent ++ [new] }
+
+def pullRun [DecidableEq V] (reduce : List (Option V) → Option V) (n : Nat) (evs : List (Nat × List V)) : PullSt V :=
+  evs.foldl (pullFeed reduce) (pullInit n)
+
+/-- the members' latest values: slot `i` = the last change of the last non-empty message of member `i` -/
+def latest (n : Nat) (evs : List (Nat × List V)) : List (Option V) :=
+  evs.foldl slotStep (List.replicate n none)
+
+
 end ScVerif.C17
